@@ -111,6 +111,7 @@ type ackCall struct {
 }
 
 type renv struct {
+	rawToggle bool // alternates scenarios with a raw-acknowledgement packet
 	*env
 	pathOrd *ibctesting.Path
 	// B heights for which the clients on A hold a consensus state, and vice versa, per path
